@@ -194,7 +194,7 @@ def check_C06(ctx, replay=None):
         bg = BuilderGen(rng)
         corpus = load_corpus("C06")
         lines += corpus
-        nprog = 400 if ctx.tier == "quick" else 6000
+        nprog = 1000 if ctx.tier == "quick" else 8000
         nev = 24 if ctx.tier == "quick" else 40
         for i in range(nprog):
             kind, nops, toks = bg.program()
@@ -309,7 +309,7 @@ def policy_coverage(ctx, res, rule, nontrivial):
     ))
 
 
-def check_core_policy(ctx, prop, prop_file, theorems, kinds, rule, replay=None, npol=(250, 4000), nev=(40, 80),
+def check_core_policy(ctx, prop, prop_file, theorems, kinds, rule, replay=None, npol=(400, 4000), nev=(40, 80),
                       gen=None, diff_filter=None, **kw):
     proof_step(ctx, prop_file, theorems, gen=gen)
     q = ctx.tier == "quick"
@@ -396,7 +396,7 @@ def check_C03(ctx, replay=None):
                        "C03_source_entry_is_the_model", "C03_validated_entries_nondegenerate", "C03_nonvacuous"],
                       ["cond", "cond", "mixed", "mixed", "mixed_long", "condlong"],
                       "policies mixing unconditional and conditional entries (1..4 groups, repeated names merged into OR lists, 1..85 conditions per list, repeated arguments, the same syscall in several groups), compiled by the implementation and the extracted model (instruction-exact comparison); every accepted program run on events aimed at each list (satisfying / nearly satisfying every condition) and on events whose argument words equal other entries' syscall numbers and operands, against the extracted decide; non-trivial = accepted policy with conditional entries and events evaluated",
-                      replay=replay, npol=(220, 4000), nev=(50, 100), gen=gen)
+                      replay=replay, npol=(400, 4000), nev=(50, 100), gen=gen)
 
 
 # ------------------------------------------------------------------------------------------------ C04
@@ -438,7 +438,7 @@ def check_C04(ctx, replay=None):
                        "C04_source_layout_is_the_model", "C04_source_x32_guard_is_the_model", "C04_nonvacuous"],
                       ["names", "names_long", "names_long", "names_long", "cond", "mixed", "mixed_long", "condlong", "degenerate", "whole_table"],
                       "policies of every kind sized so that the architecture jump distance straddles 255/256 (name lists of 245..260 and longer, conditional entries), all four tables; compared with the extracted model on the prologue, the instruction the architecture jump lands on and the x32 guard; every accepted program run ONLY on events of a foreign architecture (all audit ids of the package, bit flips of the native id, random words) and, natively, numbers with the x32 bit (0x40000000, |n, 0xFFFFFFFF, ...) or just below it, against the extracted decide; non-trivial = accepted policy with events evaluated",
-                      replay=replay, npol=(250, 4000), nev=(40, 80), foreign_share=0.6, x32_share=0.4, diff_filter=differs, gen=gen)
+                      replay=replay, npol=(400, 4000), nev=(40, 80), foreign_share=0.6, x32_share=0.4, diff_filter=differs, gen=gen)
 
 
 # ------------------------------------------------------------------------------------------------ C05
@@ -489,7 +489,7 @@ def check_C05(ctx, replay=None):
     res = check_core_policy(ctx, "C05", "C05.v", theorems,
                             ["names", "names_long", "cond", "mixed", "mixed_long", "condlong", "degenerate", "degenerate", "whole_table"],
                             "policies of every kind including degenerate ones (groups without names, one name, the whole table, 85-condition lists, programs over 4096 instructions), all four tables, both byte orders: the implementation's program, raw-encoded by the extracted encoder, is judged by the extracted kernel_check (a port of bpf_check_classic + seccomp_check_filter, proved sound in Coq) and its returns are compared with the closed set; the kernel_check model itself is validated against the RUNNING kernel on the implementation's programs and on systematically damaged variants (out-of-range jt/jf/k, unaligned / >=64 / negative load offsets, foreign opcodes, no final return, length 0 and 4097, truncations) offered to seccomp(2) in throw-away child processes; non-trivial = distinct accepted programs judged + distinct damaged variants on which kernel and model were compared",
-                            replay=replay, npol=(220, 4000), nev=(10, 30))
+                            replay=replay, npol=(300, 4000), nev=(10, 30))
     if res is None:
         return
     cases = dict(res["cases"])
